@@ -22,6 +22,14 @@ CHECKS = {
          "Exhaustive enumeration of header multisets (Connection lines with comma lists over 6 tokens, fixed hop-by-hop subsets, listed and unlisted end-to-end headers, 12 Via chains incl. this instance at every position/line, X-Forwarded-* variants, Content-Length / Transfer-Encoding combinations, protocol/address/URL environments) as a union of full sub-products, for requests and responses, run on the real httpspec stack with a test context and a stated subset through the real proxy over loopback; reference model from the statement (hop-by-hop removal, untouched other headers, exactly one appended Via, X-Forwarded-* semantics, loop => 400 and not sent upstream, framing errors flagged); failures are minimised factor by factor into signatures.",
          "Union of sub-products rather than the full product; Proxy-Connection treated as don't-care; requests net/http itself refuses are counted, not judged.",
          "bounded-exhaustive input enumeration against a reference model", "enum", "DESIGN.md §7 C14"),
+ "C15": ("model_checking",
+         "Messages parsed from generated wire bytes (request/response x body sizes 0..65537 (1 MiB thorough) x Content-Length/chunked(chunk lists, 0-2 trailers)/close-delimited x 7 content codings incl. corrupt x 10 content types incl. form/multipart/binary; header-shape space) are run through 13 logger variants (HAR x 4 capture options, marbl stream/modifier, text logger x headersOnly x decode, bare snapshots) and serialised 7 ways; output must be byte-identical to an unlogged twin and the logger must not fail; snapshots must re-parse to the original; skip-logging must record nothing.",
+         "Chunk boundaries are not compared; only announced trailers.",
+         "bounded-exhaustive input/configuration enumeration with a differential (unlogged twin) oracle", "enum", "DESIGN.md §7 C15"),
+ "C16": ("model_checking",
+         "The C15 message space x 4 capture options is logged by har.Logger; every exported entry is compared with ground truth computed independently from the wire bytes (method, URL, version, status, header list, query, cookies, redirect, de-chunked undecoded post data incl. parsed form/multipart parameters, fully decoded response content and size) and the export handler's JSON is unmarshalled and compared entry by entry (non-UTF-8 preserved).",
+         "bodySize/headersSize not compared; corrupt gzip: metadata only.",
+         "bounded-exhaustive input/configuration enumeration against an independent reference computation", "enum", "DESIGN.md §7 C16"),
  "C17": ("model_checking",
          "All operation sequences up to length 6 (quick) / 7 (thorough) over a 9-operation alphabet are run on the real har.Logger and compared step by step with a list model; 2-3 thread scenarios on colliding ids are run under the gosim scheduler with every interleaving of the logger's lock operations enumerated and each recorded history checked for linearizability against the same model.",
          "Scheduling points are synchronisation operations only (lock/atomic/channel); ids {a,b,c}; bodiless request/response shapes.",
